@@ -300,18 +300,43 @@ def rule_prov_assert(crate):
         out.ok("assert_eq/2:conversion", *crate.loc(fe, two[0]), detail="the first argument is converted to the unit of the second")
     else:
         out.violation("assert_eq/2:conversion", f, fe["line"], "assert_eq(a, b) does not convert a to b's unit before comparing")
-    # equality comparison between converted lhs and rhs
-    eqs = [n for n in walk(fe["body"]) if n.get("k") == "Binary" and n.get("op") in ("==", "!=")]
+    # equality comparison between converted lhs and rhs: the VALUE of the `if let Ok(converted) = a.convert_to(..)`
+    # block (what decides success for quantities) must be a `==` between the converted first and the second argument
+    # (a `==` somewhere else in the function, e.g. the non-quantity branch, does not count)
     eq_ok = False
-    for n in eqs:
-        lp = operand_prov(n["l"], inits, ids)
-        rp = operand_prov(n["r"], inits, ids)
-        if n["op"] == "==" and {"lhs", "rhs"} <= {ids[i] for i in lp | rp} and lp != rp:
-            eq_ok = True
+    why_eq = "no `if let Ok(converted) = a.convert_to(b.unit())` block found"
+    if ok2:
+        conv = two[0]
+        for n in walk(fe["body"]):
+            if n.get("k") != "If":
+                continue
+            c = peel(n["cond"])
+            if c.get("k") != "Let" or not any(x is conv for x in walk(c["init"])):
+                continue
+            conv_ids = {q["id"] for q in walk(c["pat"]) if q.get("k") == "Binding"}
+            blk = peel(n["then"])
+            val = blk.get("tail") if blk.get("k") == "Block" else blk
+            val = peel(val) if val is not None else {}
+            hops = 0
+            while val.get("k") == "Path" and val["res"].get("r") == "local" and val["res"]["id"] in inits and hops < 4:
+                val = peel(inits[val["res"]["id"]])
+                hops += 1
+            ids2 = dict(ids)
+            for ci in conv_ids:
+                ids2[ci] = "converted"
+            if val.get("k") == "Binary" and val.get("op") == "==":
+                lp = {ids2[i] for i in operand_prov(val["l"], inits, ids2)}
+                rp = {ids2[i] for i in operand_prov(val["r"], inits, ids2)}
+                if ("converted" in lp and "rhs" in rp) or ("converted" in rp and "rhs" in lp):
+                    eq_ok = True
+                else:
+                    why_eq = "the deciding `==` does not compare the converted first argument with the second"
+            else:
+                why_eq = "the value of the quantity branch is not a `==` between the converted first argument and the second (it is a %s%s): assert_eq(a, b) then no longer agrees with `a == b` (e.g. for infinities, whose difference is NaN)" % (val.get("k"), " " + val.get("name", "") if val.get("k") == "MethodCall" else "")
     if eq_ok:
-        out.ok("assert_eq/2:equality", f, fe["line"], "success is decided by `==` between the converted first argument and the second")
+        out.ok("assert_eq/2:equality", f, fe["line"], "success for quantities is the value of `converted == rhs`")
     else:
-        out.violation("assert_eq/2:equality", f, fe["line"], "no `==` between the (converted) first and the second argument decides assert_eq/2")
+        out.violation("assert_eq/2:equality", f, fe["line"], "assert_eq/2: " + why_eq)
     # 3-argument form
     recvs = [operand_prov(c["recv"], inits, ids) for c in three]
     if len(three) == 2 and {frozenset(r) for r in recvs} == {frozenset({lhs["id"]}), frozenset({rhs["id"]})}:
